@@ -1361,7 +1361,7 @@ def _sweeps(thorough):
             for method in ('cosine', 'corr'):
                 k += 1
                 add('C06/fixed-t', orc_fixed_t, dict(seed=9000 + k, n_rdm=(4, 7)[k % 2], n_cond=5, M=2 + k % 2, method=method, noise=0.5,
-                                                     near=near, degenerate=1e-30, vatol=1e-12 * near ** 2, vrtol=1e-6, prtol=1e-9 / near ** 2),
+                                                     near=near, degenerate=1e-30, vatol=1e-12 * near ** 2, vrtol=1e-6, prtol=max(1e-7, 1e-13 / near ** 2)),
                     'close-competitor-models', 'eval_fixed')
         for noise in (1e-3, 1e-5):
             for method in ('cosine', 'corr'):
